@@ -35,6 +35,8 @@ const (
 	tagLongLink  = "ext4-symlink-target-over-block"
 	tagStaleLink = "ext4-symlink-stale-block"
 	tagTrail     = "ext4-write-trailing-empty-writes"
+	tagDealloc   = "ext4-dealloc-block-group"
+	tagRmStale   = "ext4-remove-stale-dir-block"
 )
 
 const MiB = int64(1 << 20)
@@ -55,7 +57,7 @@ func configs() []x.Config {
 	}
 }
 
-type defects struct{ skip, remove, leak, wrap, rmLink, extCsum, longLink, staleLink, stale, trail bool }
+type defects struct{ skip, remove, leak, wrap, rmLink, extCsum, longLink, staleLink, stale, trail, dealloc, rmStale bool }
 
 type engine struct {
 	c    *hx.Ctx
@@ -206,6 +208,7 @@ func (e *engine) runHistory(h hist, scratch string) {
 	rn := &runner{fs: fs, ref: r, bs: bs, avoidSkip: e.def.skip}
 	c.Stat("histories." + cfg.Name)
 	prevAcct := view.Acct()
+	gaps := map[string][][2]int64{} // per file: the ranges between the old end of file and the offset of a write past EOF
 	for s := 0; s < h.nops; s++ {
 		id := fmt.Sprintf("%s/s%d", h.id, s)
 		var o op
@@ -251,7 +254,28 @@ func (e *engine) runHistory(h hist, scratch string) {
 		if o.kind == "write" {
 			if n := r.lookup(o.path); n != nil && o.off > int64(len(n.data)) {
 				gapWrite = true
+				gaps[o.path] = append(gaps[o.path], [2]int64{int64(len(n.data)), o.off})
 			}
+		}
+		if o.kind == "remove" || o.kind == "create" {
+			delete(gaps, o.path)
+		}
+		// blocks of the parent directory before a Remove (trigger of finding ext4-remove-stale-dir-block)
+		rmParentBlocks := 0
+		if o.kind == "remove" && e.def.rmStale {
+			rmParentBlocks = parentBlocks(fs, o.path)
+		}
+		var pre *rmPre
+		var lpre *lnkPre
+		if e.fsck && o.kind == "remove" {
+			pre = e.preRemove(d, cfg, rn, o)
+		}
+		if e.fsck {
+			lpre = e.preLinks(d, cfg, rn, o)
+		}
+		var dpre *dirPre
+		if !e.fsck && o.kind == "remove" {
+			dpre = e.preDir(d, cfg, rn, o)
 		}
 		out := rn.exec(o)
 		if o.expectRefusal() && out.refused != nil {
@@ -305,7 +329,7 @@ func (e *engine) runHistory(h hist, scratch string) {
 		// 2. the property's observation after the call
 		if !stop {
 			if e.fsck {
-				e.fsckStep(id, cfg, d, o, out, &prevAcct, scratch, fail)
+				e.fsckStep(id, cfg, d, o, out, &prevAcct, pre, lpre, rn, rmParentBlocks, scratch, fail)
 			} else if out.refused == nil {
 				removeTaint := o.kind == "remove" && e.def.remove
 				content := map[string]bool{o.path: true}
@@ -318,12 +342,22 @@ func (e *engine) runHistory(h hist, scratch string) {
 				if removeTaint {
 					content = map[string]bool{}
 				}
+				if dpre != nil && c.Want(id) {
+					emitDirRewrite(c, id, dpre, d, cfg, !e.def.rmStale)
+				}
+				rmTag := func(diff string) string {
+					tag := e.classifyTree(diff, o, r, gapWrite)
+					if tag == "-" && rmParentBlocks >= 2 && staleDirDiff(diff, o.path) {
+						tag = tagRmStale
+					}
+					return tag
+				}
 				if diff := observe(fs, r, !e.def.skip, content); diff != "" {
-					fail(e.classifyTree(diff, o, r, gapWrite), "live view differs from the reference tree: "+diff)
+					fail(rmTag(diff), "live view differs from the reference tree: "+diff)
 				} else if fs2, err := reopen(d, cfg); err != nil {
 					fail("-", "ext4.Read of the image failed: "+err.Error())
 				} else if diff := observe(fs2, r, !e.def.skip, content); diff != "" {
-					fail(e.classifyTree(diff, o, r, gapWrite), "view after re-opening the image differs from the reference tree: "+diff)
+					fail(rmTag(diff), "view after re-opening the image differs from the reference tree: "+diff)
 				}
 				if removeTaint {
 					c.Stat("history-ended.remove-defect")
@@ -348,8 +382,39 @@ func (e *engine) runHistory(h hist, scratch string) {
 	}
 	e.shapeStats(fs, r)
 	if e.fsck {
-		e.debugfsCheck(h, cfg, d, r, scratch, repro)
+		e.debugfsCheck(h, cfg, d, r, gaps, scratch, repro)
 	}
+}
+
+// parentBlocks: how many blocks the directory holding path has (0 when it cannot be told)
+func parentBlocks(fs *ext4.FileSystem, p string) (n int) {
+	defer func() {
+		if recover() != nil {
+			n = 0
+		}
+	}()
+	ino := uint32(2)
+	if par := parentOf(p); par != "." {
+		var err error
+		if ino, err = fs.V04EntryInode(par); err != nil || ino == 0 {
+			return 0
+		}
+	}
+	ex, _, err := fs.V04InodeExtents(ino)
+	if err != nil {
+		return 0
+	}
+	for _, e := range ex {
+		n += int(e.Count)
+	}
+	return n
+}
+
+// staleDirDiff: the difference is in the listing of the directory the name was removed from (an entry twice, the
+// removed entry still there, or the directory unreadable because an entry names the released inode)
+func staleDirDiff(diff, removed string) bool {
+	par := parentOf(removed)
+	return strings.HasPrefix(diff, fmt.Sprintf("listing of %q", par)) || strings.HasPrefix(diff, fmt.Sprintf("ReadDir(%q)", par))
 }
 
 // classifyPanic names the known defect that explains a panic, if its trigger holds.
@@ -457,7 +522,7 @@ func (e *engine) shapeStats(fs *ext4.FileSystem, r *ref) {
 
 // ---- mode=fsck ------------------------------------------------------------------------
 
-func (e *engine) fsckStep(id string, cfg x.Config, d *memdev.Dev, o op, out outcome, prev *x.Acct, scratch string,
+func (e *engine) fsckStep(id string, cfg x.Config, d *memdev.Dev, o op, out outcome, prev *x.Acct, pre *rmPre, lpre *lnkPre, rn *runner, rmParentBlocks int, scratch string,
 	fail func(tag, msg string)) {
 	c := e.c
 	ok, fout := x.FsckDev(d, cfg.Start, cfg.Size, scratch, "img")
@@ -476,6 +541,8 @@ func (e *engine) fsckStep(id string, cfg x.Config, d *memdev.Dev, o op, out outc
 		}
 		tag := "-"
 		switch {
+		case o.kind == "remove" && out.refused == nil && e.def.rmStale && rmParentBlocks >= 2 && staleDirFsck(fout):
+			tag = tagRmStale
 		case o.kind == "remove" && out.refused == nil && e.def.remove &&
 			(strings.Contains(fout, "bitmap differences") || strings.Contains(fout, "Unattached inode") || strings.Contains(fout, "count wrong")):
 			tag = tagRemove
@@ -500,10 +567,41 @@ func (e *engine) fsckStep(id string, cfg x.Config, d *memdev.Dev, o op, out outc
 	if verr == nil && c.Want(id) {
 		emitAcct(c, id, *prev, acct, o.kind)
 		*prev = acct
+		if pre != nil && out.refused == nil {
+			emitRemove(c, id, pre, view)
+		}
+		if lpre != nil && out.refused == nil {
+			emitLinks(c, id, lpre, rn, d, cfg, view)
+		}
 	}
 }
 
-func (e *engine) debugfsCheck(h hist, cfg x.Config, d *memdev.Dev, r *ref, scratch string, repro func() string) {
+// staleGapOnly reports whether got differs from want only inside the recorded gaps, where want is zero: the
+// trigger and the symptom of finding ext4-hole-stale-bytes (a write past EOF exposes what the blocks held before).
+func staleGapOnly(got, want []byte, gaps [][2]int64) bool {
+	if len(got) != len(want) || len(gaps) == 0 {
+		return false
+	}
+	diff := false
+	for i := range got {
+		if got[i] == want[i] {
+			continue
+		}
+		diff = true
+		in := false
+		for _, g := range gaps {
+			if int64(i) >= g[0] && int64(i) < g[1] {
+				in = true
+			}
+		}
+		if !in || want[i] != 0 {
+			return false
+		}
+	}
+	return diff
+}
+
+func (e *engine) debugfsCheck(h hist, cfg x.Config, d *memdev.Dev, r *ref, gaps map[string][][2]int64, scratch string, repro func() string) {
 	c := e.c
 	id := h.id + "/debugfs"
 	img := filepath.Join(scratch, "dbg.img")
@@ -524,6 +622,9 @@ func (e *engine) debugfsCheck(h hist, cfg x.Config, d *memdev.Dev, r *ref, scrat
 		want := r.lookup(p).data
 		if string(got[p]) != string(want) {
 			tag := "-"
+			if e.def.stale && staleGapOnly(got[p], want, gaps[p]) {
+				tag = tagStale
+			}
 			c.Fail(id, tag, fmt.Sprintf("%s: debugfs extracts %q differently from what was written: %s", cfg.Name, shortPath(p), firstDiff(got[p], want)), repro())
 			return
 		}
